@@ -87,10 +87,23 @@ def run_case(case):
         if case["state"]:
             state = State(root_dir=root, tmp_dir=os.path.join(root, "state"))
             cfg["state"] = state
+        sp = case.get("spelling", "plain")
+
+        def spell(path):
+            """The same location written the way the case says (files cannot take a trailing separator)."""
+            if sp == "slash" and not os.path.isfile(path):
+                return path + os.sep
+            if sp == "rel":
+                return os.path.relpath(path, os.path.dirname(root))   # always with a directory component (dvc_objects' link
+                # probe cannot handle a bare file name as the target - outside this repository)
+            return path
+
+        if sp == "rel":
+            os.chdir(os.path.dirname(root))
         cls = LocalHashFileDB if case["cls"] == "local" else HashFileDB
         odb = cls(fs, os.path.join(root, "cache"), **cfg)
         # ---- object route
-        staging, meta, obj = build(odb, srcd, fs, "md5")
+        staging, meta, obj = build(odb, spell(srcd), fs, "md5")
         transfer(staging, odb, {obj.hash_info}, shallow=False)
         if single:
             listing = {"a": REVD.get(obj.hash_info.value, "other")}
@@ -101,23 +114,24 @@ def run_case(case):
             reloaded = {REV.get("/".join(k), "?" + "/".join(k)): REVD.get(hi.value, "other") for k, _m, hi in Tree.load(odb, obj.hash_info)}
             nfiles, size = meta.nfiles, meta.size
         f1 = os.path.join(root, "fresh-object")
-        checkout(f1, fs, obj if single else Tree.load(odb, obj.hash_info), odb, state=state)
+        checkout(spell(f1), fs, obj if single else Tree.load(odb, obj.hash_info), odb, state=state)
         fresh = {"object": walk(f1)}
         # ---- index route (directories)
         if not single:
             odb2 = cls(fs, os.path.join(root, "cache2"), **cfg)
-            idx = imd5(ibuild(srcd, fs), state=state)
+            idx = imd5(ibuild(spell(srcd), fs), state=state)
             isave(idx, odb=odb2)
             idx.storage_map.add_cache(ObjectStorage((), odb2))
             f2 = os.path.join(root, "fresh-index")
             diff = compare(None, idx)
-            apply(diff, f2, fs, storage="cache", state=state)
+            apply(diff, spell(f2), fs, storage="cache", state=state)
             fresh["index"] = walk(f2)
         return {"src": case["src"], "staged": {"listing": listing, "nfiles": int(nfiles or 0), "size": int(size or 0)},
                 "reloaded": reloaded, "fresh": {r: v[0] for r, v in fresh.items()},
                 "extra": {r: v[1] for r, v in fresh.items()},
                 "case": case}
     finally:
+        os.chdir("/")
         if state is not None:
             state.close()
         shutil.rmtree(root, ignore_errors=True)
@@ -153,10 +167,12 @@ def check(run: core.Run, replay=None):
         cases = []
         for i, t in enumerate(trees):
             for j, (cls, link, st) in enumerate(cfgs if not quick else [cfgs[(i + k) % len(cfgs)] for k in range(3)]):
-                cases.append({"id": len(cases), "src": t, "cls": cls, "link": link, "state": st})
+                cases.append({"id": len(cases), "src": t, "cls": cls, "link": link, "state": st,
+                              "spelling": ("plain", "slash", "rel")[(i + j) % 3]})
         for c in CONTENTS:
             for (cls, link, st) in cfgs:
-                cases.append({"id": len(cases), "src": {"a": c}, "single": True, "cls": cls, "link": link, "state": st})
+                cases.append({"id": len(cases), "src": {"a": c}, "single": True, "cls": cls, "link": link, "state": st,
+                              "spelling": ("plain", "rel")[len(cases) % 2]})
     with get_context("fork").Pool(16) as pool:
         recs = [r for part in pool.map(_work, [cases[k::64] for k in range(64) if cases[k::64]]) for r in part]
     errs = [r for r in recs if "harness_error" in r]
@@ -172,7 +188,8 @@ def check(run: core.Run, replay=None):
             run.verdict(v[1], v[2], v[5], {k: r[k] for k in ("src", "staged", "reloaded", "fresh", "extra", "case")})
     run.extra.update({"rule": "all 255 non-empty trees over 4 nested paths x {empty, LF, CRLF} contents (duplicates included), odd names "
                               "(non-ASCII, spaces, '.dir' suffix, leading dot), an untracked nested empty directory in every source, "
-                              "plus single-file sources; store class x link type x state (3 of the 12 configurations per tree in quick, "
+                              "plus single-file sources; source and target paths spelled plain / with a trailing separator / relative to the "
+                              "working directory; store class x link type x state (3 of the 12 configurations per tree in quick, "
                               "all in thorough); object route and index route", "validation": stats, "exhaustive": not quick})
     run.assumptions += ["reflink unavailable on this file system: only its fall-back to copy is explored"]
     run.add_sample({k: recs[0][k] for k in ("src", "staged", "fresh", "case")})
